@@ -190,6 +190,11 @@ def plan_problem(expr):
         parts = list(parts)
         if len(parts) != np_:
             return (type(node).__name__, "npartitions", f"{type(node).__name__}: {len(parts)} computed partitions, npartitions={np_}", _node_selection(node))
+        stray = [x for x in parts if type(x) is tuple and len(x) == 2 and isinstance(x[0], str) and isinstance(x[1], int)]
+        if stray:
+            # a task key handed through unevaluated: the node addresses a partition its input does not have
+            return (type(node).__name__, "partition-missing",
+                    f"{type(node).__name__}: a reported partition computes to the unevaluated key {stray[0]!r}", _node_selection(node))
         if len(divs) != np_ + 1:
             return (type(node).__name__, "divisions-length", f"{type(node).__name__}: {len(divs)} divisions for npartitions={np_}", _node_selection(node))
         if _skip_divisions(node):
@@ -635,6 +640,11 @@ MUST_RUN = [
     {"kind": "rowcount", "source": "from_pandas", "chain": "col_a", "P": [2, 0]},               # D62
     {"kind": "rowcount", "source": "read_parquet", "chain": "add1", "P": [2, 0]},               # D63
     {"kind": "rowcount", "source": "read_parquet_arrow", "chain": "col_a", "P": [0, 0]},        # D63
+    # a selection that cannot reach the reader (cumulative / overlap operation in between) over a multi-file read that
+    # the tune stage would fuse into fewer partitions (D86)
+    {"kind": "source", "source": "read_parquet_div", "chain": "cumsum", "P": [3, 1]},
+    {"kind": "source", "source": "read_parquet_div", "chain": "cumsum", "P": [0, 0, 1]},
+    {"kind": "source", "source": "read_parquet_div", "chain": "shift1", "P": [1, 2]},
 ]
 
 
